@@ -185,7 +185,11 @@ impl Datastore for ClnDatastore {
                 ),
                 string: Some(info),
                 hex: None,
-                mode: Some(DatastoreMode::MUST_REPLACE),
+                // The attempt record may be missing when the attempt was
+                // interrupted between writing the pending state and writing
+                // the attempt record. Create it in that case, otherwise the
+                // payment could never be marked failed again.
+                mode: Some(DatastoreMode::CREATE_OR_REPLACE),
                 generation: None,
             })
             .await?;
